@@ -56,38 +56,34 @@ fn vtx_of(frames: usize, data: &[u8; 28], player_frequency: u8) -> Vtx {
     }
 }
 
-fn scenario(stereo: bool) {
-    let frames: usize = kani::any();
-    kani::assume(frames <= 2);
+fn scenario(stereo: bool, frames: usize) {
     let data: [u8; 28] = kani::any();
     let spf: usize = kani::any();
-    kani::assume(spf >= 1 && spf <= 3);
+    kani::assume(spf >= 1 && spf <= 2);
     // sample_rate / player_frequency == spf
     let mut p = Player::<Rec>::new(vtx_of(frames, &data, 1), spf, stereo);
     let ch = if stereo { 2 } else { 1 };
-    // three calls with symbolic buffer lengths (incl. 0, 1 and odd lengths in stereo), then drain
-    let mut out = [0f64; 16];
+    // two calls with symbolic buffer lengths (incl. 0, 1 and odd lengths in stereo), then drain
+    let mut out = [0f64; 12];
     let mut filled = 0usize;
-    let mut call = 0;
-    while call < 4 {
-        let len: usize = if call < 3 { kani::any() } else { 16 - filled };
-        kani::assume(len <= 4 || call == 3);
-        if filled + len <= 16 {
-            let n = p.play(&mut out[filled..filled + len]);
-            kani::assert(n <= len && n % ch == 0, "C20: play fills whole frames of channels within the buffer");
-            filled += n;
-        }
-        call += 1;
-    }
+    let l1: usize = kani::any();
+    let l2: usize = kani::any();
+    kani::assume(l1 <= 3 && l2 <= 3);
+    let n = p.play(&mut out[0..l1]);
+    kani::assert(n <= l1 && n % ch == 0, "C20: play fills whole sample frames within the buffer");
+    filled += n;
+    let n = p.play(&mut out[filled..filled + l2]);
+    kani::assert(n <= l2 && n % ch == 0, "C20: play fills whole sample frames within the buffer");
+    filled += n;
+    let n = p.play(&mut out[filled..12]);
+    filled += n;
     let total = frames * spf;
-    // total = frames * floor(rate / player_frequency) samples per channel (buffer space permitting)
-    if total * ch <= 12 {
-        kani::assert(filled == total * ch, "C20: frames*floor(rate/freq) samples per channel in total, then the end");
-        kani::assert(p.play(&mut out[0..4]) == 0, "C20: nothing after the end");
-    }
+    // total = frames * floor(rate / player_frequency) samples per channel, then the end
+    kani::assert(filled == total * ch, "C20: frames*floor(rate/freq) samples per channel in total");
+    kani::assert(p.play(&mut out[8..12]) == 0, "C20: nothing after the end");
     // the stream does not depend on how it was split: sample k carries value k (left) / -k (right)
     let mut i = 0;
-    while i < 16 {
+    while i < 12 {
         if i < filled {
             let k = (i / ch) as f64;
             let exp = if stereo && i % 2 == 1 { -k } else { k };
@@ -98,37 +94,43 @@ fn scenario(stereo: bool) {
     // register writes of frame j happen exactly before sample j*spf, R13 == 0xFF is skipped
     let ay = p.verif_backend();
     kani::assert(!ay.overflow, "harness: write log large enough");
+    kani::assert(ay.n_samples == total, "C20: the chip generates exactly the samples delivered");
     let mut w = 0;
     let mut j = 0;
-    while j < 2 {
-        if j < frames && j * spf * ch < filled + (if filled == total * ch { 0 } else { 1 }) && j * spf < ay.n_samples + 1 && (j * spf < ay.n_samples || false) {
-            let mut r = 0;
-            while r < 14 {
-                let val = data[j * 14 + r];
-                if !(r == 13 && val == 0xFF) {
-                    kani::assert(w < ay.n_w, "C20: every register of a started frame is written");
-                    if w < ay.n_w {
-                        kani::assert(ay.w_reg[w] == r as u8 && ay.w_val[w] == val, "C20: frame k's fourteen values in register order");
-                        kani::assert(ay.w_at[w] == j * spf, "C20: frame k applied exactly at output sample k*floor(rate/freq)");
-                    }
-                    w += 1;
+    while j < frames {
+        let mut r = 0;
+        while r < 14 {
+            let val = data[j * 14 + r];
+            if !(r == 13 && val == 0xFF) {
+                kani::assert(w < ay.n_w, "C20: every register of every frame is written");
+                if w < ay.n_w {
+                    kani::assert(ay.w_reg[w] == r as u8 && ay.w_val[w] == val, "C20: frame k's fourteen values in register order, R13=0xFF skipped");
+                    kani::assert(ay.w_at[w] == j * spf, "C20: frame k applied exactly at output sample k*floor(rate/freq)");
                 }
-                r += 1;
+                w += 1;
             }
+            r += 1;
         }
         j += 1;
     }
-    kani::cover!(filled > 0 && frames == 2);
+    kani::assert(w == ay.n_w, "C20: no other register writes");
+    kani::cover!(filled > 0);
 }
 
 #[kani::proof]
-#[kani::unwind(30)]
+#[kani::unwind(16)]
 fn play_mono() {
-    scenario(false);
+    scenario(false, 2);
 }
 
 #[kani::proof]
-#[kani::unwind(30)]
+#[kani::unwind(16)]
 fn play_stereo() {
-    scenario(true);
+    scenario(true, 2);
+}
+
+#[kani::proof]
+#[kani::unwind(16)]
+fn play_empty() {
+    scenario(kani::any(), 0);
 }
